@@ -16,6 +16,7 @@ import (
 	"context"
 	"encoding/json"
 	"fmt"
+	"io"
 	"os"
 	"path/filepath"
 	"sort"
@@ -47,6 +48,45 @@ type Case struct {
 
 type failure struct{ kind, sig, what string }
 
+// gateClient is the replica client the VFS file reads through: the file client plus a gate that,
+// once armed, blocks the next OpenLTXFile (the poll goroutine fetching the page index / header of a
+// new file) until released. It opens the window between "poll has listed/fetched" and "poll applies"
+// in which the main goroutine calls SetTargetTime.
+type gateClient struct {
+	*file.ReplicaClient
+	mu      sync.Mutex
+	armed   bool
+	blocked chan struct{}
+	release chan struct{}
+}
+
+func (g *gateClient) arm() (blocked, release chan struct{}) {
+	g.mu.Lock()
+	defer g.mu.Unlock()
+	g.armed, g.blocked, g.release = true, make(chan struct{}), make(chan struct{})
+	return g.blocked, g.release
+}
+
+func (g *gateClient) disarm() {
+	g.mu.Lock()
+	g.armed = false
+	g.mu.Unlock()
+}
+
+func (g *gateClient) OpenLTXFile(c context.Context, level int, minTXID, maxTXID ltx.TXID, offset, size int64) (io.ReadCloser, error) {
+	g.mu.Lock()
+	if g.armed {
+		g.armed = false
+		b, r := g.blocked, g.release
+		g.mu.Unlock()
+		close(b)
+		<-r
+	} else {
+		g.mu.Unlock()
+	}
+	return g.ReplicaClient.OpenLTXFile(c, level, minTXID, maxTXID, offset, size)
+}
+
 type fileMeta struct {
 	commit int
 	pages  []int
@@ -57,6 +97,7 @@ type world struct {
 	dir     string
 	p       *prim.Primary
 	client  *file.ReplicaClient
+	gate    *gateClient
 	f       *litestream.VFSFile
 	ms      string // model state (driver format)
 	archive map[int][]byte
@@ -287,7 +328,7 @@ func (w *world) open() error {
 	if err != nil {
 		return err
 	}
-	f := litestream.NewVFSFile(w.client, "x.db", prim.Quiet)
+	f := litestream.NewVFSFile(w.gate, "x.db", prim.Quiet)
 	f.PollInterval = time.Hour
 	if err := f.Open(); err != nil {
 		return err
@@ -535,18 +576,54 @@ func (w *world) poll(i int) {
 	w.check(fmt.Sprintf("step%d/poll", i))
 }
 
-func (w *world) timeTravel(i, a int) {
+// timeTravel: SetTargetTime(T), compare the view with Restore(Timestamp=T), ResetTime, compare the
+// latest view. With race, SetTargetTime is issued while a poll that has already listed a new file is
+// blocked fetching it (gated client): the poll must not touch the historical view.
+func (w *world) timeTravel(i, a int, race bool) {
 	if w.locked {
 		return
 	}
 	fs, _ := prim.Listing(w.client)
+	if race { // a target time at or before the current position, so that the in-flight poll is strictly newer
+		var old []prim.F
+		for _, f := range fs {
+			if f.Max <= int(w.f.Pos().TXID) {
+				old = append(old, f)
+			}
+		}
+		fs = old
+	}
 	if len(fs) == 0 {
 		return
 	}
 	pick := fs[a%len(fs)]
 	T := time.UnixMilli(pick.Created + 1).UTC()
 	plan, perr := litestream.CalcRestorePlan(ctx, w.client, 0, T, prim.Quiet)
-	err := w.f.SetTargetTime(ctx, T)
+	var err error
+	if race {
+		blocked, release := w.gate.arm()
+		done := make(chan error, 1)
+		go func() { done <- w.f.VerifPoll(ctx) }()
+		select {
+		case <-blocked:
+			w.count("vfs/tt-race-in-window")
+			err = w.f.SetTargetTime(ctx, T)
+			close(release)
+			<-done
+		case <-done: // nothing new to fetch: the poll never reached the gate
+			w.gate.disarm()
+			w.count("vfs/tt-race-no-window")
+			err = w.f.SetTargetTime(ctx, T)
+		case <-time.After(10 * time.Second):
+			w.gate.disarm()
+			close(release)
+			<-done
+			w.fail("error", "C18/engine", "gated poll neither blocked nor finished")
+			return
+		}
+	} else {
+		err = w.f.SetTargetTime(ctx, T)
+	}
 	if (err != nil) != (perr != nil) {
 		w.fail("violation", "C18/time-travel-error", fmt.Sprintf("step%d: SetTargetTime err=%v but restore plan err=%v", i, err, perr))
 	}
@@ -592,7 +669,7 @@ func runCase(c Case, res *hx.Result, drv *hx.Driver, mu *sync.Mutex) (fails []fa
 		return nil, "", false, err
 	}
 	defer p.Close()
-	w := &world{c: c, dir: dir, p: p, client: file.NewReplicaClient(p.RepDir), archive: map[int][]byte{}, meta: map[string]fileMeta{}, res: res, drv: drv, mu: mu}
+	w := &world{c: c, dir: dir, p: p, client: file.NewReplicaClient(p.RepDir), gate: &gateClient{ReplicaClient: file.NewReplicaClient(p.RepDir)}, archive: map[int][]byte{}, meta: map[string]fileMeta{}, res: res, drv: drv, mu: mu}
 	defer func() {
 		if w.f != nil {
 			w.f.Close()
@@ -650,7 +727,9 @@ func runCase(c Case, res *hx.Result, drv *hx.Driver, mu *sync.Mutex) (fails []fa
 				return w.fails, "", false, fmt.Errorf("reopen: %w", err)
 			}
 		case st.V == "tt":
-			w.timeTravel(i, st.A)
+			w.timeTravel(i, st.A, false)
+		case st.V == "ttrace":
+			w.timeTravel(i, st.A, true)
 		case st.V == "check":
 			w.check(fmt.Sprintf("step%d/check", i))
 		}
@@ -738,6 +817,19 @@ func genCase(rnd *hx.Rand, tier string) Case {
 		c.Steps = append(c.Steps, Step{V: "unlock"}, Step{V: "poll"}, Step{V: "poll"})
 		return c
 	}
+	if rnd.Chance(10) {
+		// family "time travel inside a poll": growth, then one or more rounds of (new file; SetTargetTime
+		// while the poll that discovered it is fetching; view vs Restore(Timestamp=T); ResetTime; polls)
+		for j := 0; j < 1+rnd.Intn(3); j++ {
+			w1, w2 := prim.Op{K: "write", A: 1 + rnd.Intn(10), B: 200 + rnd.Intn(2500)}, prim.Op{K: "sync"}
+			c.Steps = append(c.Steps, Step{P: &w1}, Step{P: &w2}, Step{V: "poll"})
+		}
+		for j := 0; j < 1+rnd.Intn(2); j++ {
+			w1, w2 := prim.Op{K: "update", A: 1 + rnd.Intn(3), B: 200 + rnd.Intn(2500)}, prim.Op{K: "sync"}
+			c.Steps = append(c.Steps, Step{P: &w1}, Step{P: &w2}, Step{V: "ttrace", A: rnd.Intn(1000)}, Step{V: "poll"}, Step{V: "poll"})
+		}
+		return c
+	}
 	n := 6 + rnd.Intn(14)
 	if tier == "thorough" {
 		n += 10
@@ -755,10 +847,13 @@ func genCase(rnd *hx.Rand, tier string) Case {
 			c.Steps = append(c.Steps, Step{V: "lock"})
 		case k < 90:
 			c.Steps = append(c.Steps, Step{V: "unlock"})
-		case k < 95:
+		case k < 93:
 			c.Steps = append(c.Steps, Step{V: "reopen"})
-		default:
+		case k < 96:
 			c.Steps = append(c.Steps, Step{V: "tt", A: rnd.Intn(1000)})
+		default: // a new file, then SetTargetTime inside the poll that fetches it
+			w1, w2 := prim.Op{K: "update", A: 1 + rnd.Intn(3), B: 200 + rnd.Intn(2500)}, prim.Op{K: "sync"}
+			c.Steps = append(c.Steps, Step{P: &w1}, Step{P: &w2}, Step{V: "ttrace", A: rnd.Intn(1000)})
 		}
 	}
 	c.Steps = append(c.Steps, Step{V: "unlock"}, Step{V: "poll"}, Step{V: "poll"})
